@@ -231,6 +231,12 @@ func judgeC18(rec *stats.Rec, c c18Case) (string, string) {
 	return "", ""
 }
 
+// ipLikeCNs: common names that are, or only resemble, IP address literals. Which of them the
+// model calls an address is decided by cnIsIP (dotted quad by own arithmetic, otherwise an IPv6
+// literal as net.ParseIP reads it - no zone, no brackets, no port).
+var ipLikeCNs = []string{"8.8.8.8", "2001:db8::1", "::1", "fe80::1", "fe80::1%eth0", "fe80::1%www.example.notatld", "fe80::1%25lo", "fe80::1%", "::1%com", "[::1]", "[2001:db8::1]:443",
+	"1.2.3.4.", "1.2.3", "01.2.3.4", "1.2.3.4%x", "::ffff:1.2.3.4", "1.2.3.4:80", "0x7f.0.0.1", "127.1", "1::2::3", "256.1.1.1", "1.2.3.4.com", "::", "2001:DB8::A", "1.2.3.4 ", " 1.2.3.4", "１.2.3.4"}
+
 func cnIsIP(s string) bool {
 	// dotted quad or IPv6 literal, as the statement's "non-IP common name"
 	if strings.Count(s, ".") == 3 {
@@ -391,6 +397,44 @@ func TestC18(t *testing.T) {
 		rec.Class("tld_lint_without_home")
 		return
 	}
+	// enumerated: every IP-like common name on up to three subscriber homes of the lint, SAN = one valid name
+	{
+		k := 0
+		nh := 0
+		for _, hi := range hs {
+			o := co.Certs[hi]
+			pc, ok := gen.ParseCert(o.DER)
+			if !ok || pc.IsCA || homeClass[tldLint][hi] < 1 {
+				continue
+			}
+			nh++
+			if nh > 3 {
+				break
+			}
+			for _, cn := range ipLikeCNs {
+				for _, tag := range []uint32{12, 19} {
+					k++
+					if !stats.Mine(k) {
+						continue
+					}
+					v, err := gen.ViewCert(o.DER)
+					if err != nil {
+						continue
+					}
+					v.SetSAN(false, gen.GNDNS([]byte("www.example.com")))
+					v.SetCN([]byte(cn), tag)
+					c := c18Case{What: "cert", DER: v.DER(), Base: o.Name}
+					rec.Eval()
+					rec.Class("ip_like_cn_enumerated")
+					if sig, msg := judgeC18(rec, c); msg != "" {
+						if rec.Report("c18", sig, msg, c) {
+							t.Fatalf("c18 common name %q on %s: %s: %s", cn, o.Name, sig, msg)
+						}
+					}
+				}
+			}
+		}
+	}
 	rapidRun(t, "certificates", perShard(stats.Scale(3000, 100000)), func(rt *rapid.T) {
 		o := co.Certs[hs[rapid.IntRange(0, len(hs)-1).Draw(rt, "home")]]
 		pc, ok := gen.ParseCert(o.DER)
@@ -419,7 +463,10 @@ func TestC18(t *testing.T) {
 			gns = append(gns, gen.GNIP([]byte{8, 8, 8, 8}))
 		}
 		v.SetSAN(false, gns...)
-		switch rapid.IntRange(0, 4).Draw(rt, "cn") {
+		switch rapid.IntRange(0, 6).Draw(rt, "cn") {
+		case 5, 6:
+			// strings around the "is the common name an IP address" decision
+			v.SetCN([]byte(rapid.SampledFrom(ipLikeCNs).Draw(rt, "iplike")), 12)
 		case 0:
 			v.RemoveCN()
 		case 1:
